@@ -97,12 +97,24 @@ COMMANDS = [
     ('ackoff', 'session ack disable', None, 'done', ('ackoff',)),
     ('ackon', 'session ack enable', None, 'done', ('ackon',)),
     ('silence', 'session ack silence', None, 'done', ('silence',)),
+    # the indexed route commands: data lines, then one terminal reply like every other command
+    ('radd', 'peer * routes add route 10.20.0.0/24 next-hop 2.2.2.2', None, 'done', ('add', '10.20.0.0/24', ALL)),
+    ('radd1', 'peer 127.0.0.2 routes add route 10.20.1.0/24 next-hop 2.2.2.2', None, 'done', ('add', '10.20.1.0/24', ('n1',))),
+    ('rlist', 'peer * routes list', None, 'done', None),
+    ('rremove', 'peer * routes remove route 10.20.0.0/24', None, None, ('del', '10.20.0.0/24', ALL)),
+    ('rremove1', 'peer 127.0.0.2 routes remove route 10.20.0.0/24', None, None, ('del', '10.20.0.0/24', ('n1',))),
+    ('rbad', 'peer * routes add route 10.20.0.0/33 next-hop 2.2.2.2', None, 'error', None),
+    # clear with something that is neither `in` nor `out`: not a command, nothing may change
+    ('clearbad', 'rib clear sideways', 'clear adj-rib sideways', 'error', None),
+    # a byte above 0x7f in a comment: the line is a comment (or refused) and the lines around it are untouched
+    ('utf8', '# caf\u00e9 peer * announce route 10.3.0.0/24 next-hop 2.2.2.2', '# caf\u00e9 announce route 10.3.0.0/24 next-hop 2.2.2.2', None, None),
 ]
 # the commands every sequence length is crossed over / the ones only crossed up to length 2 (with everything)
 CORE = ('annA', 'wdrA', 'annB1', 'ann6', 'badval', 'badsyntax', 'nonexthop', 'unknown', 'nopeer', 'eor', 'flush', 'ping')
 PARSE3 = ('inlinenone', 'nested', 'nestedbad', 'listbad', 'flow', 'flowbad', 'annA', 'annA2', 'annB1', 'wdrA', 'attrs2', 'attrsbad')
 STATEFUL = ('inlinenone', 'annN2', 'annA2', 'nested', 'nestedbad', 'listbad', 'flow', 'flowbad', 'clear', 'attrs2', 'attrsbad', 'split', 'inline', 'inline1', 'show', 'version', 'comment', 'empty', 'gstart', 'gend', 'bare', 'barewd', 'barebad', 'ackoff', 'ackon', 'silence')
 BLOCK3 = ('gstart', 'gend', 'bare', 'barewd', 'barebad', 'annA', 'wdrA', 'unknown', 'ackoff', 'ackon', 'silence')
+ROUTES3 = ('radd', 'radd1', 'rlist', 'rremove', 'rremove1', 'rbad', 'annA', 'wdrA', 'clear', 'clearbad', 'unknown')
 BLOCK4 = ('gstart', 'gend', 'bare', 'barewd', 'barebad', 'annA')
 MANY = '\n'.join(f'peer * announce route 10.{100 + i // 250}.{i % 250}.0/24 next-hop 2.2.2.2' for i in range(120))
 MANY_PREFIXES = tuple(f'10.{100 + i // 250}.{i % 250}.0/24' for i in range(120))
@@ -297,7 +309,7 @@ def run_sequence(args):
     inbound = args[3] if len(args) > 3 else None   # (remote address, sends that find the socket buffer full)
     viols = []
     lines = [l for c in seq for l in (CMD[c][1] if version == 6 else CMD[c][2]).split('\n')]
-    data = ('\n'.join(lines) + '\n').encode()
+    data = ('\n'.join(lines) + '\n').encode('utf-8')
     seen = []
     with World(CFG, env={'api.version': version}, listen=inbound is not None) as wd:
         wd.settle()
@@ -327,8 +339,9 @@ def run_sequence(args):
     if partial:
         viols.append(('reply-unterminated', f'reply stream ends with an unterminated line {partial[:60]!r}'))
     # (1) same commands in the same order
-    norm = [' '.join(l.split()) for l in lines]
-    got = [' '.join(s.split()) for s in seen]
+    # (octets above 0x7f have no agreed reading: the ASCII part of a line is what is compared)
+    norm = [' '.join(''.join(ch for ch in l if ord(ch) < 128).split()) for l in lines]
+    got = [' '.join(''.join(ch for ch in s if ord(ch) < 128).split()) for s in seen]
     if got != norm:
         kind = 'lost' if len(got) < len(norm) else ('extra' if len(got) > len(norm) else 'altered')
         viols.append((f'command-stream:{kind}', f'commands executed {got} != lines written {norm} (chunks at {list(cuts)})'))
@@ -338,7 +351,7 @@ def run_sequence(args):
     bad = match_replies(expected, unacked, terms_n)
     if bad is not None:
         if bad[0] == 'count':
-            viols.append((f'ack-count:{len(expected)}->{len(terms_n)}', f'{len(expected)} commands to be acknowledged in {list(seq)} answered with terminal replies {terms_n} (all lines: {[l[:40] for l in complete][:12]})'))
+            viols.append((f'ack-count:{len(expected)}->{len(terms_n)}', f'{len(expected)} commands to be acknowledged in {list(seq)} answered with terminal replies {terms_n} (all lines: {[l[:10] for l in complete][:12]})'))
         else:
             i = bad[1]
             viols.append((f'ack-wrong:{who[i]}:{expected[i]}->{terms_n[i] if i < len(terms_n) and len(terms_n) == len(expected) else "?"}', f'commands {list(seq)}: replies {terms_n}, expected {expected}'))
@@ -634,6 +647,8 @@ def plan(tier):
         add(seq, (), 6)
     for seq in itertools.product(BLOCK4, repeat=4):
         add(seq, (), 6)
+    for seq in itertools.product(ROUTES3, repeat=3):
+        add(seq, (), 6)
     if tier != 'quick':
         for seq in itertools.product(names, repeat=3):
             add(seq, (), 6)
@@ -644,9 +659,9 @@ def plan(tier):
     for tail in itertools.product(('unknown', 'annA', 'version', 'badval', 'show'), repeat=2):
         add(('many', 'show') + tail, (), 6)
     # chunkings: every single cut and (thorough) every pair of cuts for a set of two-command sequences
-    chunk_seqs = [('annA', 'wdrA'), ('badval', 'annA'), ('unknown', 'annB1'), ('annA', 'unknown'), ('gstart', 'bare', 'gend'), ('ackoff', 'annA', 'ackon'), ('attrs2', 'empty', 'unknown')]
+    chunk_seqs = [('annA', 'utf8', 'annB1'), ('annA', 'wdrA'), ('badval', 'annA'), ('unknown', 'annB1'), ('annA', 'unknown'), ('gstart', 'bare', 'gend'), ('ackoff', 'annA', 'ackon'), ('attrs2', 'empty', 'unknown')]
     for seq in chunk_seqs:
-        data_len = len('\n'.join(CMD[c][1] for c in seq)) + 1
+        data_len = len('\n'.join(CMD[c][1] for c in seq).encode('utf-8')) + 1
         for cuts in chunkings(data_len, 1 if (tier == 'quick' or len(seq) > 2) else 2):
             if cuts:
                 add(seq, cuts, 6)
